@@ -1012,16 +1012,17 @@ RTC_META = {
         "CG: the quantity linear_cg itself tests, mean_j ||A x_j-b_j||/||b_j|| <= max(cg_tolerance, floor) with floor 2e-5 (float64) / 2e-3 (float32); "
         "when the solver emits its own 'CG terminated' NumericalWarning only shape/dtype/finite-ness are required",
         "solves that internally use a Lanczos root (SumKronecker above max_cholesky_size) are held to the documented tridiagonal "
-        "jitter (relative 1e-6): tolerance 2e-5*max(1,kappa/100)",
+        "jitter (relative 1e-6): tolerance 2e-5*max(1,kappa/100) in float64, 5e-3*max(1,kappa/100) in float32 (start-vector sensitivity)",
+        "cg_tolerance 'tight' = 1e-7 (float64) / 1e-4 (float32): float32 cannot meet a tighter tolerance and would burn all 1000 iterations",
         "with a non-invertible left factor the forward error bound kappa*tau is used",
         "method selection (no CG when fast solves are off or N <= max_cholesky_size) is taken from the settings documentation",
     ],
     "families": "28 PSD zoo cases + 42 local PSD cases (geometric/clustered/uniform spectra, kappa up to 1e6 direct / 1e4 CG, Kronecker "
                 "x3, Kronecker+diag variants, inverse-of-Cholesky, Cholesky-of-structured, block/repeat/expand nestings, SKI, kernel) x "
-                "dtypes {f32,f64} x batch {(),(2,),(1,),(2,3)} (+(1,2),(3,1,2) thorough) x sizes {1,2,4,6} (+3,9 thorough) x 15 settings "
+                "dtypes {f32,f64} (f64 all, f32 a checkerboard half: quick even / thorough odd) x batch {(),(2,),(1,),(2,3)} (+(1,2),(3,1,2) thorough) x sizes {1,2,4,6} (+3,9 thorough) x 15 settings "
                 "combinations (max_cholesky_size 0/N-1/N/default, fast solves/log_prob, cg_tolerance 1/1e-2/1e-4/1e-6, max_cg_iterations, "
                 "preconditioner size 0/3/15, min_preconditioning_size, memory_efficient, linalg dtypes) x rhs {vec, mat, 1-col, batched, "
                 "size-1 broadcast, fewer batch dims, mixed, extra batch} x left {none, orthogonal, 2xN, batched}; entry points op.solve / "
                 "torch.linalg.solve / linear_operator.solve; histories (cholesky/root/solve/logdet first); default dtype float64 with "
-                "float32 operators; 16 triangular cases in both orientations incl. solve_triangular and _cholesky_solve.",
+                "float32 operators; 15 triangular cases in both orientations incl. solve_triangular and _cholesky_solve; permutation solve.",
 }
